@@ -41,7 +41,7 @@ def main(tier):
     mc = storemodel.check(rep, tier, PROP)
     if rep.machinery_errors:
         return rep.finish()
-    n = 40 if tier == "quick" else 1200
+    n = 120 if tier == "quick" else 2500
     scns = [scenario(rng, k) for k in range(n)]
     hists, traces, verdicts, tr, other, nontriv = F.run_and_judge(rep, scns, CLAUSES, sig_fn=sig)
     rep.cov.update({
